@@ -147,7 +147,13 @@ impl Model {
             let c = canon(&el.uri);
             match el.kind.as_str() {
                 "P" | "U" => { objs.insert(c, unhx(&el.data)); }
-                _ => { objs.remove(&c); }
+                _ => {
+                    // `--fault skip-withdraw` breaks the MODEL on purpose
+                    // to show that the comparisons are live (self-test)
+                    if !FAULT_SKIP_WITHDRAW.load(
+                        std::sync::atomic::Ordering::Relaxed
+                    ) { objs.remove(&c); }
+                }
             }
         }
     }
@@ -232,6 +238,13 @@ fn read_snapshot(repo_dir: &Path) -> Result<Snap, String> {
 }
 
 //------------ session -------------------------------------------------------
+
+static FAULT_SKIP_WITHDRAW: std::sync::atomic::AtomicBool =
+    std::sync::atomic::AtomicBool::new(false);
+
+/// Signatures this worker already wrote a witness for (one file each).
+static REPORTED: std::sync::Mutex<BTreeSet<String>> =
+    std::sync::Mutex::new(BTreeSet::new());
 
 #[derive(Clone, Debug, Serialize, Deserialize)]
 struct Desc {
@@ -322,8 +335,9 @@ impl Sess {
 
     fn viol(&mut self, r: &mut Report, sig: &str, detail: String, desync: bool) {
         if desync { self.dead = true }
-        if !self.reported.insert(sig.to_string()) {
-            r.count("violations_repeated_in_session", 1);
+        self.reported.insert(sig.to_string());
+        if !REPORTED.lock().unwrap().insert(sig.to_string()) {
+            r.count("violations_repeated", 1);
             return
         }
         let detail = format!(
@@ -335,6 +349,14 @@ impl Sess {
 
     fn key_for(&mut self, h: &str) -> Option<(Base64, KeyIdentifier)> {
         if let Some(k) = self.keys.get(h) { return Some(k.clone()) }
+        // key generation is slow: at most three identities per world,
+        // further publishers share them (krill does not mind)
+        if self.keys.len() >= 3 {
+            let n = util::fnv(h.as_bytes()) as usize % self.keys.len();
+            let k = self.keys.values().nth(n)?.clone();
+            self.keys.insert(h.to_string(), k.clone());
+            return Some(k)
+        }
         let idc = self.w.krill.signer().create_self_signed_id_cert().ok()?;
         let k = (
             Base64::from_content(&idc.to_bytes()),
@@ -595,7 +617,10 @@ impl Sess {
             }
         } else {
             let krill = &self.w.krill;
-            match catch(|| krill.repo_manager().publish(&handle, delta, krill)) {
+            let t0 = std::time::Instant::now();
+            let res = catch(|| krill.repo_manager().publish(&handle, delta, krill));
+            r.count("time_us_publish_call", t0.elapsed().as_micros() as u64);
+            match res {
                 Err(p) => {
                     self.viol(r, "panic-in-publish", p, true);
                     return
@@ -783,7 +808,11 @@ impl Sess {
             let owners: Vec<String> = self.m.published.iter()
                 .filter(|(_, o)| o.contains_key(u)).map(|(h, _)| h.clone())
                 .collect();
-            let who = if owners.len() >= 2 { owners.join("|") }
+            let nested = owners.len() >= 2 && owners.iter().any(|o| {
+                owners.iter().any(|i| i.starts_with(&format!("{o}/")))
+            });
+            let who = if nested { "nested-handles".to_string() }
+                else if owners.len() >= 2 { owners.join("|") }
                 else { "unattributed".into() };
             r.count("snapshot_duplicate_uris_seen", dups.len() as u64);
             self.viol(r, &format!("snapshot-two-objects-one-uri:{who}"),
@@ -1295,7 +1324,8 @@ fn phase_combos(s: &mut Sess, r: &mut Report, g: &mut Gen, h: &str, len: u32) {
                     "U" => Gen::el("U", uri.clone(), &d, &hash, "own"),
                     _ => Gen::el("W", uri.clone(), &[], &hash, "own"),
                 };
-                let cms = (code + k) % 7 == 0;
+                // signing is expensive (a one-off RSA key per message)
+                let cms = code == 5 && k == 1;
                 s.exec(r, Step::Delta { h: h.into(), els: vec![el], cms });
             }
             s.exec(r, Step::Rrdp);
@@ -1331,7 +1361,7 @@ fn phase_matrix(s: &mut Sess, r: &mut Report, g: &mut Gen, h: &str, sizes: &[usi
                 if s.dead || !r.within_budget() { return }
                 let els = g.delta(&s.m, h, n, Some((kind, pos)));
                 if els.is_empty() { continue }
-                let cms = (n + pos + kind) % 5 == 0;
+                let cms = (n + pos + kind) % 23 == 0;
                 if s.m.judge(h, &els).is_err() {
                     r.distinct("bad_position_cases", format!(
                         "{}:n{n}:p{pos}", BAD_NAMES[kind]
@@ -1421,7 +1451,7 @@ fn phase_random(s: &mut Sess, r: &mut Report, g: &mut Gen, steps: usize) {
             continue
         }
         let h = g.rng.pick(&regs).clone();
-        match g.rng.weighted(&[66, 12, 4, 2, 3, 5, 1, 2]) {
+        match g.rng.weighted(&[660, 120, 2, 20, 30, 50, 10, 20]) {
             0 => {
                 let n = g.rng.range(1, 6) as usize;
                 let bad = match g.rng.below(100) {
@@ -1446,7 +1476,7 @@ fn phase_random(s: &mut Sess, r: &mut Report, g: &mut Gen, steps: usize) {
                 }
                 if g.rng.chance(1, 3) { g.rng.shuffle(&mut els) }
                 if els.is_empty() && !g.rng.chance(1, 10) { continue }
-                let cms = g.rng.chance(1, 4);
+                let cms = g.rng.chance(1, 300);
                 s.exec(r, Step::Delta { h, els, cms });
             }
             1 => s.exec(r, Step::Rrdp),
@@ -1485,11 +1515,11 @@ fn phase_random(s: &mut Sess, r: &mut Report, g: &mut Gen, steps: usize) {
                 let el = Gen::el(
                     "P", format!("{}x.roa", Model::base(&who)), &d, &[], "own"
                 );
-                let cms = g.rng.chance(1, 2);
+                let cms = g.rng.chance(1, 20);
                 s.exec(r, Step::Delta { h: who, els: vec![el], cms });
             }
         }
-        if g.rng.chance(1, 40) && s.desc.interval > 0 {
+        if s.desc.interval > 0 && g.rng.chance(1, 250) {
             std::thread::sleep(std::time::Duration::from_millis(
                 1050 * s.desc.interval as u64
             ));
@@ -1512,6 +1542,38 @@ fn dotdot_probe(r: &mut Report) {
 }
 
 //------------ driver --------------------------------------------------------
+
+/// Short sessions that only run the two directed probes, so that their
+/// witnesses are a few steps long and independent of each other.
+fn run_probe_sessions(args: &Args, r: &mut Report, seed: u64) {
+    let handles: Vec<String> =
+        ["a", "a/b", "ab"].iter().map(|s| s.to_string()).collect();
+    let mut g = Gen { rng: Rng::new(seed), unconstructible: 0 };
+    let mut nested_done = false;
+    for round in 0..2 {
+        let desc = Desc {
+            handles: handles.clone(), ta: false, memory: false, interval: 0,
+            seed,
+        };
+        let Some(mut s) = Sess::create(args, r, 9000 + round, desc)
+        else { return };
+        for h in &handles { s.exec(r, Step::Add { h: h.clone() }) }
+        s.exec(r, Step::Rrdp);
+        if round == 0 {
+            let h = handles[(seed % 3) as usize].clone();
+            phase_scheme_case(&mut s, r, &mut g, &h);
+        }
+        if !s.dead {
+            phase_nested(&mut s, r, &mut g);
+            nested_done = true;
+        }
+        r.count("probe_sessions", 1);
+        let dir = s.w.cfg.dir.clone();
+        drop(s);
+        let _ = std::fs::remove_dir_all(dir);
+        if nested_done { break }
+    }
+}
 
 fn run_session(args: &Args, r: &mut Report, idx: u64, seed: u64) {
     let mut rng = Rng::new(seed);
@@ -1553,8 +1615,8 @@ fn run_session(args: &Args, r: &mut Report, idx: u64, seed: u64) {
             else { &[1, 3, 6] };
         phase_matrix(&mut s, r, &mut g, &focus, sizes);
     }
-    let steps = if thorough { g.rng.range(1500, 3000) }
-        else { g.rng.range(350, 600) } as usize;
+    let steps = if thorough { g.rng.range(5000, 9000) }
+        else { g.rng.range(1200, 2400) } as usize;
     phase_random(&mut s, r, &mut g, steps);
     if s.desc.interval > 0 {
         std::thread::sleep(std::time::Duration::from_millis(1100));
@@ -1652,12 +1714,17 @@ fn replay(args: &Args, r: &mut Report, path: &Path) {
 fn main() {
     let args = Args::parse();
     let mut r = Report::new("C10", &args);
+    if args.extra.get("fault").map(|s| s.as_str()) == Some("skip-withdraw") {
+        FAULT_SKIP_WITHDRAW.store(true, std::sync::atomic::Ordering::Relaxed);
+        r.note("selftest", json!("model ignores withdraws: violations expected"));
+    }
     if let Some(path) = args.replay.clone() {
         replay(&args, &mut r, &path);
         r.write();
         return
     }
     dotdot_probe(&mut r);
+    run_probe_sessions(&args, &mut r, args.shard_seed());
     let mut k = 0u64;
     loop {
         // the four fixed publisher sets are spread over the first shards
